@@ -221,6 +221,13 @@ def reference(cfg, W):
             out['well_conditioned'] = out['sensitivity']['dE'] <= COND_E
             out['results']['tol_E'] = max(TOL_E, MARGIN_E * out['sensitivity']['dE'])
             out['results']['tol_obs'] = max(TOL_OBS, MARGIN_OBS * out['sensitivity']['dObs'])
+            if cfg['family'] == 'eng_seg':
+                # Segment searches: the response to the probe has a heavy tail (soak seed 2010: entropies 2.5 x the
+                # tolerance so defined, on the unchanged tree).  Only the energy is compared there, with a wider
+                # margin (at most 1e-3; the defect this workload was built for moves the energy by 7e-2);
+                # observables are compared for the finite chain, which resumes bit-exactly.
+                out['results']['tol_E'] = max(1.0e-6, 10 * MARGIN_E * out['sensitivity']['dE'])
+                out['results']['tol_obs'] = float('inf')
         else:
             out['well_conditioned'] = False
     return world, out
